@@ -1,6 +1,7 @@
 # Copyright 2020 National Technology & Engineering Solutions of Sandia, LLC (NTESS).
 # Under the terms of Contract DE-NA0003525 with NTESS, the U.S. Government retains
 # certain rights in this software.
+import numbers
 from jaqalpaq.core import (
     GateStatement,
     BlockStatement,
@@ -200,13 +201,16 @@ def generate_jaqal_value(val):
         or isinstance(val, AnnotatedValue)
     ):
         return val.name
-    elif isinstance(val, float):
-        text = repr(val)
+    elif isinstance(val, numbers.Integral):
+        # int, and integer types that are not subclasses of it (numpy)
+        return str(int(val))
+    elif isinstance(val, numbers.Real):
+        # float(): a subclass such as numpy.float64 has a repr of its own
+        text = repr(float(val))
         mantissa, exp, exponent = text.partition("e")
         if exp and "." not in mantissa:
             # The Jaqal grammar requires a decimal point in a floating
             # point literal, e.g. 1e-06 must be written 1.0e-06.
             text = f"{mantissa}.0e{exponent}"
         return text
-    elif isinstance(val, int):
-        return str(val)
+
